@@ -137,15 +137,32 @@ impl PieceType for Pawn {
             let rank = board.turn.enpassant_pawn_rank();
             let files = chess_lookup::ADJACENT_FILES[ep_file];
             let dest_rank = board.turn.enpassant_capture_rank();
-            let dest = BitBoard::from(Pos::new(ep_file, dest_rank));
+            let dest_pos = Pos::new(ep_file, dest_rank);
+            let dest = BitBoard::from(dest_pos);
             let capture_pawn = Pos::new(ep_file, rank);
 
-            // if the opponent's pawn is checking the king (and the only piece checking the king)
-            // or if the there is no check and the opponent's pawn doesn't block a check against our king
-            // then we can capture it via en-passant with any unpinned pawn on the same rank and adjacent file as the
-            // opponent's pawn
-            if check_mask.contains(capture_pawn) && !board.pinned.contains(capture_pawn) {
-                for src in BitBoard::from(rank) & files & pieces & !board.pinned {
+            // if we are in check, the capture must remove the checking pawn or land between
+            // the checker and our king
+            let resolves_check = check_mask.contains(capture_pawn) || check_mask.contains(dest_pos);
+
+            if resolves_check {
+                let opp_bb = board.raw[!board.turn];
+                let queen_bb = board.raw[Piece::Queen];
+                let rooks = (board.raw[Piece::Rook] | queen_bb) & opp_bb;
+                let bishops = (board.raw[Piece::Bishop] | queen_bb) & opp_bb;
+
+                for src in BitBoard::from(rank) & files & pieces {
+                    // the capturing pawn and the captured pawn both leave their squares, so
+                    // look for sliders attacking our king on the board as it will be after the capture
+                    let after =
+                        (combined - BitBoard::from(src) - BitBoard::from(capture_pawn)) | dest;
+
+                    if (chess_lookup::rook_moves(king_sq, after) & rooks).any()
+                        || (chess_lookup::bishop_moves(king_sq, after) & bishops).any()
+                    {
+                        continue;
+                    }
+
                     unsafe {
                         movelist.push_unchecked(LegalMovesAt {
                             src,
